@@ -455,13 +455,15 @@ func (e *E) pathsOfHit(h Hit) ([]string, bool) {
 		case "Validate":
 			switch h.ID {
 			case "VInt":
-				match = fc.F.Kind == KVInt || fc.F.Kind == KSVInt || fc.F.Kind == KMVInt || fc.F.Kind == KInner || fc.F.Kind == KPInner || fc.F.Kind == KSSVInt || fc.F.Kind == KMSVInt
+				match = fc.F.Kind == KVInt || fc.F.Kind == KSVInt || fc.F.Kind == KMVInt || fc.F.Kind == KInner || fc.F.Kind == KPInner || fc.F.Kind == KSSVInt || fc.F.Kind == KMSVInt || fc.F.Kind == KIfPInner
 			case "PI":
 				match = fc.F.Kind == KPI
 			case "VStr":
 				match = fc.F.Kind == KVStr
+			case "UVal":
+				match = fc.F.Kind == KUVal
 			case "Inner":
-				match = fc.F.Kind == KInner || fc.F.Kind == KPInner
+				match = fc.F.Kind == KInner || fc.F.Kind == KPInner || fc.F.Kind == KIfPInner
 			case "TopV":
 				match = false
 			}
@@ -498,14 +500,27 @@ func (e *E) pathsOfHit(h Hit) ([]string, bool) {
 				}
 			}
 		}
-		if fc.F.Kind == KInner || fc.F.Kind == KPInner {
+		if fc.F.Kind == KInner || fc.F.Kind == KPInner || fc.F.Kind == KIfPInner {
 			paths = append(paths, fc.Path+".x", fc.Path+".y")
+		}
+		if fc.F.Kind == KURe {
+			paths = append(paths, fc.Path+".p", fc.Path+".q")
+		}
+		if fc.Ref {
+			// the value lives in the setting the reference points to: an element of a referenced
+			// list may be named there
+			for _, rn := range []string{fc.refName(), "zz" + fc.refName()} {
+				paths = append(paths, rn)
+				for i := 0; i < 6; i++ {
+					paths = append(paths, rn+"."+itoa(i))
+				}
+			}
 		}
 		_ = val
 	})
 	if h.Kind == "simcheck" && strings.HasPrefix(h.ID, "Inner.") {
 		e.C.walk(true, func(fc *FieldCase, mentioned bool) {
-			if fc.F.Kind == KInner || fc.F.Kind == KPInner {
+			if fc.F.Kind == KInner || fc.F.Kind == KPInner || fc.F.Kind == KIfPInner {
 				paths = append(paths, fc.Path+"."+strings.TrimPrefix(h.ID, "Inner."), fc.Path)
 				if !mentioned {
 					lenient = true
@@ -530,7 +545,7 @@ func (e *E) pathsOfHit(h Hit) ([]string, bool) {
 // Validate method must have had it called.
 func (e *E) checkTraversal(result reflect.Value, log []Hit) {
 	seenCheck := map[string][]string{}
-	seenValidate := map[string]map[string]bool{"VInt": {}, "VStr": {}, "Inner": {}, "TopV": {}, "PI": {}}
+	seenValidate := map[string]map[string]bool{"VInt": {}, "VStr": {}, "Inner": {}, "TopV": {}, "PI": {}, "UVal": {}}
 	for _, h := range log {
 		switch h.Kind {
 		case "simcheck":
@@ -574,6 +589,10 @@ func (e *E) checkTraversal(result reflect.Value, log []Hit) {
 				if !seenValidate["VStr"][f.String()] {
 					e.fail("validators-run", "Unpack", map[string]string{"field": fc.Path, "kind": fc.F.Kind.String()}, "Unpack succeeded but Validate() was never called on the final value %q of field %s (%s)", f.String(), fc.Path, fc.F.Kind)
 				}
+			case KUVal:
+				if x := f.Field(0).Int(); (fc.Pre || fc.Mention) && !seenValidate["UVal"][fmt.Sprint(x)] {
+					e.fail("validators-run", "Unpack", map[string]string{"field": fc.Path, "kind": fc.F.Kind.String()}, "Unpack succeeded but Validate() was never called on the final value %d of field %s (%s, pre-filled=%v, mentioned=%v)", x, fc.Path, fc.F.Kind, fc.Pre, fc.Mention)
+				}
 			case KPI:
 				if !seenValidate["PI"][fmt.Sprint(f.Int())] {
 					e.fail("validators-run", "Unpack", map[string]string{"field": fc.Path, "kind": fc.F.Kind.String()}, "Unpack succeeded but Validate() was never called on the final value %d of field %s (%s, pre-filled=%v, mentioned=%v)", f.Int(), fc.Path, fc.F.Kind, fc.Pre, fc.Mention)
@@ -613,8 +632,11 @@ func (e *E) checkTraversal(result reflect.Value, log []Hit) {
 				}
 			}
 			// the tag validator of the field itself: kinds a built-in validator can reject
+			if fc.F.Ignore {
+				continue
+			}
 			switch fc.F.Kind {
-			case KStruct, KPStruct, KInline, KInner, KPInner, KDInt, KUStr, KUInt, KUBool, KUFloat, KUAny, KUCfg, KCfg, KSStruct, KMStruct, KUUint, KAStruct, KPUStr, KMUCfg, KURefl:
+			case KStruct, KPStruct, KInline, KInner, KPInner, KDInt, KUStr, KUInt, KUBool, KUFloat, KUAny, KUCfg, KCfg, KSStruct, KMStruct, KUUint, KAStruct, KPUStr, KMUCfg, KURefl, KUVal, KURe, KIfPInner:
 				continue // struct-kind values: no built-in validator can reject them
 			}
 			want := canonHitValue(fieldValue(f))
@@ -791,8 +813,8 @@ func boundViolations(sc *StructCase, v reflect.Value, present bool) []boundViola
 			}
 			continue
 		}
-		if fc.F.Bound == "" {
-			continue
+		if fc.F.Bound == "" || fc.F.Ignore {
+			continue // (an ignored field is not looked at, not even by the validators)
 		}
 		if bad, val, viaPtr := breaks(fc.F.Bound, f); bad {
 			out = append(out, boundViolation{fc: fc, val: val, mentioned: m, viaPtr: viaPtr})
